@@ -4,6 +4,7 @@ import (
 	"errors"
 	"fmt"
 	"io"
+	"os"
 	"strings"
 	"time"
 
@@ -50,10 +51,29 @@ func compileSpec(s ReSpec) (re *regexp2.Regexp, err error) {
 		opts = append(opts, regexp2.OptionMaintainCaptureOrder())
 	}
 	re, err = regexp2.Compile(s.Pat, opts...)
+	if err == nil && s.Via == 1 {
+		// what a configuration loader does: the Regexp value in use was filled in by UnmarshalText
+		var b []byte
+		if b, err = re.MarshalText(); err == nil {
+			re = new(regexp2.Regexp)
+			err = re.UnmarshalText(b)
+		}
+	}
 	if err == nil && s.TimeoutNs > 0 {
 		re.MatchTimeout = time.Duration(s.TimeoutNs)
 	}
 	return re, err
+}
+
+// viaUnmarshal marks some plain specs (no options, no knobs: UnmarshalText compiles with the default
+// options) as obtained through UnmarshalText.
+func viaUnmarshal(r *rng, sc *Scenario, num, den int) {
+	for i := range sc.Res {
+		s := &sc.Res[i]
+		if s.Opts == 0 && !s.HasLimit && s.Cache == 0 && s.CacheB == 0 && s.RuneBuf == 0 && s.ReplBuf == 0 && !s.NoBitmap && !s.KeepOrder && r.chance(num, den) {
+			s.Via = 1
+		}
+	}
 }
 
 // patterns a Regexp value held before UnmarshalText replaces it
@@ -282,6 +302,9 @@ func execOp(re *regexp2.Regexp, op *Op, ctx *opCtx) (out string) {
 			return errClass(innerErr)
 		}
 		return orErr(fmt.Sprintf("%q", r), err)
+	case OpSplit:
+		r, err := re.Split(in, op.N)
+		return orErr(fmt.Sprintf("%q", r), err)
 	case OpWalkMixed:
 		// what belongs to the walk (text, position, "previous match was empty") must live in the Match,
 		// not where the calls in between can change it
@@ -408,10 +431,20 @@ func execOp(re *regexp2.Regexp, op *Op, ctx *opCtx) (out string) {
 		}
 		return sb.String()
 	case OpEngine:
-		regexp2.RegisterEngine(fmt.Sprintf("verif-dummy-%d", op.N), regexp2.RuntimeEngineData{})
+		// a registered engine must be the one a later Compile of its pattern gets: the engine says "no
+		// candidate", the interpreter would match the pattern (a literal) on itself
+		key := fmt.Sprintf("verif-eng-%d", op.N)
+		regexp2.RegisterEngine(key, regexp2.RuntimeEngineData{CapSize: 1, CapsList: []string{"0"},
+			FindFirstChar: func(*regexp2.Runner) bool { return false },
+			Execute:       func(*regexp2.Runner) error { return nil }})
 		r2 := regexp2.MustCompile(re.String(), regexp2.RegexOptions(op.StartAt))
 		ok, err := r2.MatchString(in)
-		return orErr(fmt.Sprint(ok), err)
+		if err != nil {
+			return orErr("", err)
+		}
+		r3 := regexp2.MustCompile(key)
+		viaEngine, err := r3.MatchString("x " + key)
+		return orErr(fmt.Sprint(ok, !viaEngine), err)
 	case OpMarshalRoundTrip:
 		b, err := re.MarshalText()
 		if err != nil {
@@ -450,5 +483,8 @@ func execOp(re *regexp2.Regexp, op *Op, ctx *opCtx) (out string) {
 		vsim.PoolGC()
 		return ""
 	}
+	// an operation kind without an implementation would compare "?" with "?" for ever: harness trouble, not a result
+	fmt.Fprintf(os.Stderr, "TROUBLE: operation kind %d (%s) has no implementation in execOp\n", op.Kind, opNames[op.Kind])
+	os.Exit(2)
 	return "?"
 }
